@@ -40,6 +40,8 @@ static int round_read(int r){ // k reads + maybe a barrier on one channel fed by
       close(p0); dispatch_semaphore_signal(cs); });
   size_t high = rnd()%3? 1+rnd()%700 : SIZE_MAX; size_t low = rnd()%3? 1+rnd()%64 : 0; if(high!=SIZE_MAX) dispatch_io_set_high_water(ch,high); if(low) dispatch_io_set_low_water(ch,low);
   size_t eff_high = high; if(low>eff_high) eff_high=low;
+  // "water marks and intervals": every third round the channel also delivers on a timer (1-5 ms), strictly or not
+  if(rnd()%3==0) dispatch_io_set_interval(ch,(uint64_t)(1+rnd()%5)*1000000ull, rnd()%2 ? DISPATCH_IO_STRICT_INTERVAL : 0);
   dispatch_group_t g=dispatch_group_create();
   for(int i=0;i<k;i++){ struct opst *o=&S[i]; dispatch_group_enter(g);
     if(o->is_barrier){ dispatch_io_barrier(ch,^{ o->done_stamp=atomic_fetch_add(&stamp,1); atomic_store(&o->done,1);
